@@ -94,7 +94,7 @@ var gsModelled = []string{
 	"                                                     op_QueryRowSrs wld id",
 	"source.handle.Query(<Table>.selectSQL())             op_QuerySelect wld (op_selectSQL <table>)",
 	"rows.Next() / rows.Columns() / rows.Err() / defer rows.Close()     op_Next / op_RowsColumns / op_RowsErr / op_RowsClose",
-	"rows.Scan(&d1, .., &dn) / row.Scan(..)               op_ScanGC / op_ScanTableInfo / op_ScanSrs (by the query the rows come from)",
+	"rows.Scan(&d1, .., &dn) / row.Scan(..)               op_ScanGC / op_ScanTableInfoS (dfltValue *string; op_ScanTableInfo when it is a *int) / op_ScanSrs (by the query the rows come from)",
 	"rows.Scan(valPtrs...)  (valPtrs[i] = &vals[i])       op_ScanAll",
 	"gpkg.DecodeGeometry(x.([]byte)) / wkbgeom.Geometry    op_DecodeGeometry (assert_bytes x) / sb_Geometry",
 	"strings.ToUpper                                      op_ToUpper (ASCII)",
@@ -142,6 +142,19 @@ var gsScanShapes = map[string]struct {
 	gsCurGC:  {"op_ScanGC", []string{gwString, gwString, gwString, gwInt}, func(c string) string { return "(cu_cur " + c + ")" }},
 	gsCurTI:  {"op_ScanTableInfo", []string{gwInt, gwString, gwString, gsBool01, gsIntPtr, gsPkN}, func(c string) string { return "(cu_cur " + c + ")" }},
 	gsRowSrs: {"op_ScanSrs", []string{gwString, gwInt, gwString, gwInt, gsDef, gsStrPtr}, func(c string) string { return c }},
+}
+
+// gsSetDfltKind: the declared type of column.dfltValue selects the setter's value type and the scan operation
+func gsSetDfltKind(kind, op string) {
+	set, get := "set_c_dflt", "get_c_dflt"
+	if kind == gsStrPtr {
+		set, get = "set_c_dflt_s", "get_c_dflt_s"
+	}
+	gsSetters[gwColumn]["dfltValue"] = gsSetter{kind, set, get}
+	sh := gsScanShapes[gsCurTI]
+	sh.op = op
+	sh.kinds = []string{gwInt, gwString, gwString, gsBool01, kind, gsPkN}
+	gsScanShapes[gsCurTI] = sh
 }
 
 func init() {
@@ -1854,12 +1867,21 @@ func genGpkgSchema(repo string) (string, error) {
 		{"TargetGeopackage", map[string]string{"Table": "Table", "pagesize": "int", "handle": "*gpkg.Handle"}},
 		{"SourceGeopackage", map[string]string{"Table": "Table", "handle": "*gpkg.Handle"}},
 		{"Table", map[string]string{"Name": "string", "columns": "[]column", "gcolumn": "string", "gtype": "gpkg.GeometryType", "srs": "gpkg.SpatialReferenceSystem"}},
-		{"column", map[string]string{"cid": "int", "name": "string", "ctype": "string", "notnull": "int", "dfltValue": "*int", "pk": "int"}},
+		{"column", map[string]string{"cid": "int", "name": "string", "ctype": "string", "notnull": "int", "pk": "int"}},
 		{"featureGPKG", map[string]string{"columns": "[]interface{}", "geometry": "geom.Geometry"}},
 	} {
 		if err := gwCheckStruct(f, c.name, c.want); err != nil {
 			return "", err
 		}
+	}
+	// the Scan destination of dflt_value decides which values of a column default the scan accepts: a *string takes any
+	// (fix de070c1, F17), a *int only NULL and integers (op_ScanTableInfo, the reading before the repair)
+	if gwCheckStruct(f, "column", map[string]string{"dfltValue": "*string"}) == nil {
+		gsSetDfltKind(gsStrPtr, "op_ScanTableInfoS")
+	} else if err := gwCheckStruct(f, "column", map[string]string{"dfltValue": "*int"}); err == nil {
+		gsSetDfltKind(gsIntPtr, "op_ScanTableInfo")
+	} else {
+		return "", fmt.Errorf("struct column: field dfltValue is neither *string nor *int")
 	}
 	if err := gsCheckGetter(f, "Columns", "columns"); err != nil {
 		return "", err
